@@ -96,7 +96,7 @@ def entry_text(n: Node, sp: Spelling) -> str:
                         + f" {kw('DEPENDING')}" + (f" {kw('ON')}" if sp.on_word else "") + f" {n.odo[2]}"))
     if not n.is_group and n.redefines is None:
         if sp.extra == "value":
-            lit = "ZERO" if (n.pic or "").upper().lstrip("S").startswith("9") else ("'A. B'", "'COMP'", "'COMP-3 X'", '"BINARY"')[n.level % 4]
+            lit = "ZERO" if (n.pic or "").upper().lstrip("S").startswith("9") else ("'A. B'", "'COMP'", "'COMP-3 X'", '"BINARY"', "'IT''S'", '"SAY ""HI"""', "'X''Y Z'")[(n.level + len(n.name or "")) % 7]
             clauses.append(("extra", f"{kw('VALUE')} {lit}"))
         elif sp.extra in ("just", "just-last") and (n.pic or "").upper().startswith("X"):
             clauses.append(("extra", f"{kw('JUSTIFIED')} {kw('RIGHT')}" if sp.extra == "just" else kw("JUST")))
